@@ -134,6 +134,9 @@ class Expression(AnonymousSerializable, metaclass=_ExpressionMeta):
 
     def _evaluate_to_time_dependent(self, scope: Mapping) -> Union['Expression', Number, numpy.ndarray]:
         try:
+            if 't' in scope:
+                # t is the time variable here: a parameter that happens to be called t is not visible to the expression
+                scope = {name: value for name, value in scope.items() if name != 't'}
             return self.evaluate_numeric(**scope, t=sympy.symbols('t'))
         except qupulse.expressions.NonNumericEvaluation as non_num:
             return ExpressionScalar(non_num.non_numeric_result)
